@@ -137,6 +137,27 @@ theorem C29_per_index (hs : List Header) (hg : ∀ h ∈ hs, SingleValued h ∧ 
     (tellPath hs)[i]? = hs[i]?.map expected := by
   rw [C29_holds.1 hs hg]; simp
 
+/-- calls of mixed kinds made one after the other on the same client (any sequence): every message is
+    restored with exactly its own headers — no key of an earlier call leaks into a later one,
+    whatever the key sets are (in particular when they shrink) -/
+theorem C29_sequence (steps : List (Bool × Header)) (hg : ∀ st ∈ steps, SingleValued st.2 ∧ DistinctCanon st.2) :
+    seqPath steps = steps.map fun st => expected st.2 := by
+  simp only [seqPath]
+  apply List.map_congr_left
+  intro st hst
+  obtain ⟨h1, h2⟩ := hg st hst
+  obtain ⟨isAsk, h⟩ := st
+  cases isAsk
+  · have := C29_holds.1 [h] (by intro x hx; simp at hx; subst hx; exact ⟨h1, h2⟩)
+    simp [this]
+  · simpa using C29_holds.2 h h1 h2
+
+/-- ask with two keys, then a tell with one of them, then a tell with none -/
+example :
+    seqPath [(true, [("x-trace".toList, ["a".toList]), ("x-tenant".toList, ["acme".toList])]),
+             (false, [("x-trace".toList, ["t".toList])]), (false, [])]
+      = [[("X-Trace".toList, "a".toList), ("X-Tenant".toList, "acme".toList)], [("X-Trace".toList, "t".toList)], []] := by decide
+
 /-- non-trivial instance of the guards: two callers sharing a batch, non-canonical keys -/
 example :
     tellPath [[("x-trace-id".toList, ["a1".toList]), ("Tenant".toList, ["t".toList])], [], [("x-trace-id".toList, ["b2".toList])]]
